@@ -738,6 +738,9 @@ type crunCase struct {
 
 // the closed family of WithInclude functions, on tokens (oracle side; the driver has its own copy)
 func includeTok(name, id, val string) bool {
+	if val == "" { // the empty message (what an overtaken create finds stored): no digit, counted as 0
+		val = "0"
+	}
 	switch name {
 	case "odd":
 		return (val[len(val)-1]-'0')%2 == 1
